@@ -70,7 +70,8 @@ def random_edit(rng, src):
 
 # ---------------------------------------------------------------- the property's rewritings
 
-WORD = re.compile(r'"[^"\n]*"?|\'[^\n]*|[A-Za-z][A-Za-z0-9_.]*[%&!#$]?|\d[\d.]*(?:[eEdD][+-]?\d+)?[%&!#]?|\n|[ \t]+|.', re.S)
+WORD = re.compile(r'"[^"\n]*"?|\'[^\n]*|[A-Za-z][A-Za-z0-9_.]*[%&!#$]?|\d[\d.]*(?:[eEdD][+-]?\d+)?[%&!#]?|\.\d+(?:[eEdD][+-]?\d+)?[%&!#]?|'
+                  r'&[hHoO][0-9a-fA-F]+[%&]?|\n|[ \t]+|.', re.S)
 
 
 def tokens_of_line(line):
